@@ -31,6 +31,7 @@ def features(beh):
     """abstract features of a TLC behaviour (list of sim steps with parsed state) used for
     coverage-guided selection: what happened, in which abstract situation, after what"""
     feats = set()
+    spanned = set()
     prev = 'Init'
     prev2 = '-'
     for idx, st in enumerate(beh[1:]):
@@ -51,6 +52,10 @@ def features(beh):
                 back = len(lg0[ld]) - len(lg0[a['f']])
                 got = len(lg1[a['f']]) - len(lg0[a['f']])
                 feats.add(('x', 'fetch', min(back, 4), got, hw1[ld] > hw0[ld], a.get('late')))
+                if len({r['e'] for r in lg1[a['f']][len(lg0[a['f']]):]}) > 1:
+                    # one response carried the end of one leader epoch and the start of the next
+                    feats.add(('x', 'fetch-spans-epochs'))
+                    spanned.add(a['f'])
             except Exception:
                 pass
         det = ''
@@ -63,6 +68,11 @@ def features(beh):
                 det = _role(state, a['f'])
             elif kind in ('Crash', 'Restart', 'Checkpoint'):
                 det = _role(state, a['r']) + ('r' if a.get('reach', True) else 'n')
+                if kind == 'Restart' and a['r'] in spanned:
+                    feats.add(('x', 'restart-after-span', a.get('reach', True)))
+            elif kind == 'FetchLost':
+                det = _role(state, a['f'])
+                feats.add(('x', 'fetch-lost', det, bool(state['pend'][meta['leader']])))
             elif kind == 'Elect':
                 det = ('u' if state['up'][a['n']] else 'd') + ('r' if a['reach'] else 'n') + ('L%d' % len(a['lag']['__set__']))
             elif kind in ('StaleFetch', 'ApplyMeta'):
@@ -261,6 +271,17 @@ def run(rep, tier, seed, replay, prop, names, relevant, rule, rf1=False, mc_quic
             tr1 = judge(rep, b1, trace, prop, names, 'Trace_Replication_rf1.cfg')
         behaviours += b1
         lines += tr1['validated']
+        # ... and a minimum ISR the single replica can never reach (min ISR 2, via the server setting or the
+        # stream override): LEADER / NONE publishes go on, ALL publishes are stored but never acknowledged
+        res = core.tlc_check('MC_Replication.tla', 'MC_Replication_rf1min2.cfg', timeout=1800)
+        rep.add_design('MC_Replication_rf1min2.cfg', res)
+        sims = core.tlc_simulate('MC_Replication.tla', 'Sim_Replication_rf1min2.cfg', 20 if tier == 'quick' else 200, 12, seed + 4)
+        b1m = [to_stimulus(b, 5500 + i, {'minISR': 2, 'fetchMax': 2, 'rf': 1}) for i, b in enumerate(sims) if len(b) > 1]
+        with core.scratch(prop.lower()) as d:
+            trace = execute(b1m, d, timeout=3000)
+            tr1m = judge(rep, b1m, trace, prop, names, 'Trace_Replication_rf1min2.cfg')
+        behaviours += b1m
+        lines += tr1m['validated']
     if rf1:
         # batches of up to two messages with mixed ack policies (BatchMaxMessages = 2)
         res = core.tlc_check('MC_Replication.tla', 'MC_Replication_batch.cfg', timeout=1800)
